@@ -24,6 +24,7 @@ type Flight struct {
 	Dup      bool // a copy of this message was already delivered
 	HasSnap  bool
 	Seq      int // per-link send sequence number: the address used by Deliver/Drop
+	Msg      *pb.Message // by-reference transport only: the object the sender produced
 }
 
 type linkKey struct{ from, to uint64 }
@@ -731,6 +732,9 @@ func (c *Cluster) netSend(n *Node, m *pb.Message) {
 	c.nextMsg++
 	c.linkSeq[k]++
 	f := &Flight{Seq: c.linkSeq[k], ID: c.nextMsg, From: n.id, To: to, Bytes: b, Type: m.GetType(), Term: m.GetTerm(), SentStep: c.step, HasSnap: m.GetSnapshot() != nil}
+	if c.rc.ByRef {
+		f.Msg = m
+	}
 	c.links[k] = append(c.links[k], f)
 	c.NewFlights = append(c.NewFlights, f)
 	if m.GetType() == pb.MsgSnap {
@@ -813,7 +817,10 @@ func (c *Cluster) doDeliver(a Action) bool {
 		return true
 	}
 	m := &pb.Message{}
-	if err := proto.Unmarshal(f.Bytes, m); err != nil {
+	if f.Msg != nil {
+		m = f.Msg
+		c.stats.fault("msg_by_reference")
+	} else if err := proto.Unmarshal(f.Bytes, m); err != nil {
 		c.chk.toolError(fmt.Sprintf("unmarshal: %v", err))
 		return true
 	}
